@@ -54,6 +54,9 @@ pub enum Op {
     EditSame(usize),
     SetPrefix(usize),
     DeleteDestination(usize),
+    /// the destination is replaced by an empty file (0) or cut after its first line (1): a placeholder, an interrupted
+    /// earlier write
+    TruncateDestination(usize, usize),
     RemoveGrammar(usize),
     Run,
 }
@@ -94,7 +97,8 @@ pub fn build(bytes: &[u8]) -> History {
     }
     for _ in 0..n {
         let f = src.pick(nfiles);
-        ops.push(match src.weighted(&[10, 4, 3, 2, 5, 2, 1, 2]) {
+        ops.push(match src.weighted(&[10, 4, 3, 2, 5, 2, 1, 2, 2]) {
+            8 => Op::TruncateDestination(f, src.pick(2)),
             7 => {
                 let k = src.pick(VALID.len());
                 last_valid[f] = k;
@@ -261,6 +265,14 @@ fn execute_inner(h: &History, root: &Path) -> Result<(bool, u64), Failure> {
                 let _ = std::fs::remove_file(&f.dest);
                 f.produced_from = None;
             }
+            Op::TruncateDestination(f, how) => {
+                let f = &mut files[*f % h.nfiles];
+                if let Ok(old) = std::fs::read_to_string(&f.dest) {
+                    let keep = if *how == 0 { String::new() } else { old.lines().next().map(|l| format!("{l}\n")).unwrap_or_default() };
+                    std::fs::write(&f.dest, keep).unwrap();
+                    f.produced_from = None;
+                }
+            }
             Op::RemoveGrammar(f) => {
                 let f = &mut files[*f % h.nfiles];
                 let _ = std::fs::remove_file(&f.grammar);
@@ -404,6 +416,9 @@ pub fn run(seed: u64, cases: u32, out: &str, workdir: &str) {
                 }
                 if h.relative_paths {
                     classes.push("relative_paths");
+                }
+                if h.ops.iter().any(|o| matches!(o, Op::TruncateDestination(..))) {
+                    classes.push("truncated_destination");
                 }
                 if h.ops.iter().any(|o| matches!(o, Op::EditValidOldMtime(..))) {
                     classes.push("edit_with_old_mtime");
